@@ -93,6 +93,19 @@ def binop_leaf(sk, *xs):
             else:
                 if not isinstance(gp[2], Payload) or gp[2].value != 0:
                     return fail("absent b side is not a default box")
+    # every absent-side default is a *fresh* box: no two yielded elements share one
+    if op in ("or", "xor"):
+        fresh = []
+        for k in range(len(exp)):
+            gp = pv(got[k][1])
+            if exp[k][1] is None:
+                fresh.append(gp[1])
+            if exp[k][2] is None:
+                fresh.append(gp[2])
+        for x in range(len(fresh)):
+            for y in range(x + 1, len(fresh)):
+                if fresh[x] is fresh[y]:
+                    return fail("two absent-side defaults are the same object")
     if raw(a) != sa or raw(b) != sb:
         return fail("an operand changed")
     for k in range(na):
@@ -382,6 +395,64 @@ def mixed_arity(sk, *xs):
     return True
 
 
+def mixed_arity2(sk, *xs):
+    """a has la-tuples (la >= 2), b has (la+1)-tuples: a & b / b & a match on the common prefix and yield the longer coordinate"""
+    na, nb, la, flip = sk["na"], sk["nb"], sk["la"], sk["flip"]
+    lb = la + 1
+    pos = 0
+    ac = []
+    for i in range(na):
+        ac.append(tuple(xs[pos:pos + la])); pos += la
+    av = list(xs[pos:pos + na]); pos += na
+    bc = []
+    for j in range(nb):
+        bc.append(tuple(xs[pos:pos + lb])); pos += lb
+    bv = list(xs[pos:pos + nb])
+    a = Fiber(ac, av)
+    b = Fiber(bc, bv)
+    z = (b & a) if flip else (a & b)
+    got = [(c, pv(p_)) for c, p_ in z]
+    exp = []
+    for j in range(nb):
+        if bv[j] == 0:
+            continue
+        for i in range(na):
+            if av[i] != 0 and ac[i] == bc[j][:la]:
+                exp.append((bc[j], i, j))
+    if len(got) != len(exp):
+        return fail("yielded %d expected %d" % (len(got), len(exp)))
+    for n in range(len(exp)):
+        c, i, j = exp[n]
+        gc, gp = got[n]
+        if tuple(gc) != c:
+            return fail("coordinate differs")
+        pa, pb = (gp[1], gp[0]) if flip else (gp[0], gp[1])
+        if pa is not a.payloads[i] or pb is not b.payloads[j]:
+            return fail("payload identity")
+    return True
+
+
+def _mk_mixed2(na, nb, la, flip):
+    ps, pre = [], []
+    an = []
+    for i in range(na):
+        t = names("a%d_" % i, la)
+        an.append(t)
+        ps += t
+    ps += names("u", na)
+    bn = []
+    for j in range(nb):
+        t = names("b%d_" % j, la + 1)
+        bn.append(t)
+        ps += t
+    ps += names("w", nb)
+    for i in range(na - 1):
+        pre.append("(%s) < (%s)" % (", ".join(an[i]), ", ".join(an[i + 1])))
+    for j in range(nb - 1):
+        pre.append("(%s) < (%s)" % (", ".join(bn[j]), ", ".join(bn[j + 1])))
+    return Ob("mixed%d%d/%dx%d/%s" % (la, la + 1, na, nb, "ba" if flip else "ab"), "mixed_arity2", dict(na=na, nb=nb, la=la, flip=flip), ps, pre)
+
+
 def _mk_mixed(na, nb, flip, budget=None):
     a = names("a", na); b0 = names("p", nb); b1 = names("q", nb)
     ps = a + names("u", na) + b0 + b1 + names("w", nb)
@@ -468,6 +539,9 @@ def obligations(tier):  # noqa: F811
     for na, nb in ([(0, 1), (1, 0), (1, 1), (1, 2), (2, 2)] if q else [(0, 1), (0, 2), (1, 0), (2, 0), (1, 1), (1, 2), (2, 2), (2, 3), (3, 2)]):
         for flip in (False, True):
             obs.append(_mk_mixed(na, nb, flip))
+    for na, nb in ([(1, 1), (1, 2)] if q else [(1, 1), (1, 2), (2, 2)]):
+        for flip in (False, True):
+            obs.append(_mk_mixed2(na, nb, 2, flip))
     for op in ("and", "or"):
         for na, nb in ([(0, 1), (1, 1), (1, 2)] if q else [(0, 1), (1, 1), (1, 2), (2, 2)]):
             obs.append(_mk_u(op, na, nb, 3 if q else 4))
